@@ -82,7 +82,9 @@ ExcObjIffFault(h, k) == k.done => /\ (Has(h, "app", "method_exception_object") <
 Redirected(k) == "redirect" \in DOMAIN k /\ k.redirect
 NoDocStr(h) == /\ ~Has(h, "app", "method_return_document") /\ ~Has(h, "app", "method_return_string")
                /\ ~Has(h, "app", "method_exception_document") /\ ~Has(h, "app", "method_exception_string")
-DocStrMatch(h, k) == (k.done /\ k.rpc) =>          \* (a ?wsdl fetch is not a call: it has a context, and no call events)
+\* (a ?wsdl fetch is not a call: it has a context, and no call events; the in-process transport builds no document at all)
+NoDocuments(k) == "nodoc" \in DOMAIN k /\ k.nodoc
+DocStrMatch(h, k) == (k.done /\ k.rpc /\ ~NoDocuments(k)) =>
   IF Redirected(k) THEN NoDocStr(h)       \* a redirect is neither a result nor a fault: no document is built
   ELSE IF ~k.fault
     THEN /\ Count(h, "app", "method_return_document") = 1
